@@ -105,6 +105,21 @@ def match_known(o, entries):
     return None
 
 
+def run_check(mod, ctx):
+    """Run one property's rules.  An AnalysisError raised after a violation has already been established does not
+    hide that violation: the check reports it (exit 1) and notes which part could not be analysed.  With no
+    violation established the AnalysisError propagates (exit 2) as before."""
+    from .model import AnalysisError
+    try:
+        mod.check(ctx)
+    except AnalysisError as e:
+        known = load_known()
+        if not any(o.verdict == VIOLATED and not match_known(o, known) for o in ctx.obligations):
+            raise
+        ctx.incomplete = str(e)
+        ctx.note(f"analysis incomplete after the violation(s) above were established: {e}")
+
+
 def finalize(ctx, t0, seed, explanation, assumptions, extra=None, write=True, variants=None):
     """Write evidence, print KNOWN-FINDING / VIOLATION lines, return exit code."""
     entries = load_known()
